@@ -1497,9 +1497,10 @@ def run(ctx):
         ctx.violation("proof obligation or correspondence no longer checks: %s" % "; ".join(ctx.broken)[:1500],
                       {"kind": "obligation", "broken": ctx.broken}, found_input=False)
     ctx.cov["partial"] += [
-        "rounded bounds (gamma_k) are not Coq theorems: gemv_rounded_full / trsv_rounded_full stay Definitions; they are "
-        "enforced as the executed exact-rational oracle on every C result",
-        "cr2cc_preserves_full (dCompRow_to_CompCol preserves the entry function) is a Definition, not a theorem; tied by K-exact + oracle",
+        "rounded sp_?gemv: proved with the constant gamma(n+2) for columns without repeated row indices (c19_gemv_rounded_partial) and "
+        "with gamma(#stored entries of the row + 2) in general (gemv_rounded_general); the statement over ALL inputs is refuted "
+        "(c19_gemv_rounded_full_refuted: a duplicated entry); the executed oracle bounds by stored entries accordingly; "
+        "trsv_rounded_full stays a Definition: enforced as the exact-rational oracle on every C result",
         "trsv_*_exact assume wf_factor, which numbers the supernodes in column order (true for 1-thread factorizations); with several "
         "threads the numbering is only a topological order (C09 clauses 24/25) -- those factors are covered by the bit-exact "
         "correspondence and the residual oracle, not by the theorems",
